@@ -243,7 +243,9 @@ def stepTok (c : Cl) (o : Out) (tok : String) : Option (Cl × Out) :=
     | [k, n] => do
       let kb ← keyOf k; let nd ← n.toNat?
       let s := slotOf kb
-      pure ({ c with owner := updF c.owner s nd, migr := c.migr.filter (·.1 != s), settled := false }, o)
+      -- a migration of the slot that was under way is over with this: every key of the slot is on the new owner
+      pure ({ c with owner := updF c.owner s nd, migr := c.migr.filter (·.1 != s),
+                     movedKeys := c.movedKeys.filter (fun k => slotOf k != s), settled := false }, o)
     | _ => none
   else if ch == 'G' then
     match body.splitOn ":" with
